@@ -17,6 +17,22 @@ PROP = "C15"
 PRESETS = [("zero", ""), ("ones", "sp:0xffff;a:0xff;x:0xff;y:0xff;r1:0xffff;r4:0xffff;r5:0xffff;r15:0xffff;hl:0xffff;ix:0xffff;iy:0xffff;$29:0xffffffff;$4:0xffffffff;x2:0xffffffff;x5:0xffffffff"),
            ("low", "sp:0;r1:0;r4:1;r5:2;hl:1;ix:0;iy:0;$29:0;x2:0")]
 PCS = [0, 0x200, 0xfffe]
+
+
+def _regs(odd, even, quad=False):
+    names = ["x%d" % i for i in range(32)] + ["$%d" % i for i in range(32)] + ["r%d" % i for i in range(32)] + \
+            ["d%d" % i for i in range(8)] + ["a%d" % i for i in range(7)] + ["a", "b", "c", "d", "e", "h", "l", "x", "y", "hl", "bc", "de", "ix", "iy"]
+    # a name ends in its register number: pairs of different parity differ (quad: pairs whose numbers differ in bit 1)
+    def num(n):
+        d = "".join(ch for ch in n if ch.isdigit())
+        return int(d) if d else sum(n.encode())
+    return ";".join("%s:0x%x" % (n, odd if ((num(n) >> 1) if quad else num(n)) % 2 else even) for n in names)
+
+
+# (the stack pointers stay where reset put them)
+VALUE_PRESETS = [("minneg", _regs(0x80000000, 0xffffffff)), ("negmin", _regs(0xffffffff, 0x80000000)),
+                 ("minneg4", _regs(0x80000000, 0xffffffff, True)), ("negmin4", _regs(0xffffffff, 0x80000000, True)),
+                 ("min16", _regs(0x8000, 0xffff)), ("allones", _regs(0xffffffff, 0xffffffff)), ("allzero", _regs(0, 0))]
 # architecture address spaces in bytes (0 = not stated here)
 SPACE = {"6502": 65536, "z80": 65536, "8008": 16384, "1802": 65536, "msp430": 65536, "tms9900": 65536, "avr8": 0,
          "lc3": 131072, "stm8": 16777216, "65816": 16777216}
@@ -62,6 +78,30 @@ def run(tier, seed):
                     cid = "%s.x%04x.%d" % (cpu["name"], p, k)
                     meta[cid] = (cpu["name"], p, PRESETS[pset][0], 0x100)
                     cases.append((cid, "cpu=%s pc=256 regs=%s show=pc;sp;a rep=1" % (cpu["name"], PRESETS[pset][1]), "256:%04x%s" % (p, fill)))
+    # documented instructions from states built of the values at which arithmetic has corners: every instruction of the
+    # CPU's comparison corpus (assembled by the real assembler, c18.build_pools) with all registers set to the most
+    # negative number / minus one in alternation (both ways round), to all ones and to zero
+    from . import c18
+    by = {c["name"]: c for c in cpus}
+    rvd = C.ensure_build("rel")
+    pools = c18.build_pools(rvd, chk.rundir, K.cpu_list(rvd), {c["name"]: c for c in K.cpu_list(rvd)})
+    ncorpus = 0
+    for cpu in cpus:
+        pool = sorted(pools.get(cpu["name"], []))
+        if tier == "quick" and len(pool) > 90:
+            # the instructions whose arithmetic has corners first (divide, remainder, multiply, shifts, rotates)
+            first = [x for x in pool if any(m in x[0].split()[0].lower() for m in ("div", "rem", "mod", "mul", "sl", "sr", "sh", "ro", "as"))]
+            rest = [x for x in pool if x not in first]
+            first = first if len(first) <= 60 else rnd.sample(first, 60)
+            pool = first + rnd.sample(rest, min(len(rest), 90 - len(first)))
+        for k, (text, hexb) in enumerate(pool):
+            for vn, regs in VALUE_PRESETS:
+                cid = "%s.c%d.%s" % (cpu["name"], k, vn)
+                meta[cid] = (cpu["name"], int(hexb[:4].ljust(4, "0"), 16), vn + " " + text, 0x200)
+                cases.append((cid, "cpu=%s pc=512 regs=%s show=pc;sp;a rep=1" % (cpu["name"], regs), "512:%s%s" % (hexb, "00" * 8)))
+                ncorpus += 1
+    if ncorpus < 2000:
+        raise C.InfraError("only %d corpus cases" % ncorpus)
     # history: the same step in a simulator object that has executed another instruction before (and was put back into
     # the prepared state) against a fresh object.  (1) twins of the cases above: the earlier instruction differs in its
     # fourth byte only, or is the next case's instruction; (2) behind two prefix bytes every fourth byte, the earlier
@@ -157,12 +197,14 @@ def run(tier, seed):
         chk.report("Sim:%s:%s%s" % (cpu, v["why"], ":history" if hist else ""), ".%s pattern %04x pc=%d preset %s%s: %s" % (cpu, p, pc, preset, hist, v["why"]),
                    dict(case=vid, observed=byid[vid]))
     chk.cov.update(dict(
-        evaluations=len(cases) * 2, history_cases=nh,
+        evaluations=len(cases) * 2, history_cases=nh, corpus_cases=ncorpus,
         distinct_nontrivial=len(cases),
         rule="for each of the simulators of cpu_list[]: leading 16-bit patterns (quick: 1500 seeded + 256 spread; thorough: all "
              "65,536) with pattern-derived operand bytes, 3 register presets (zero, all ones, low), PC at 0, 0x200 and the top "
              "of a 64 KiB space, plus every first byte with 0xf0 0xff.. operands and all-ones registers; each case executed twice; history cases: the step repeated in a simulator object that executed another instruction "
-             "before (fourth byte changed, or the next case's instruction; behind two prefix bytes every fourth byte); distinct = (simulator, pattern)",
+             "before (fourth byte changed, or the next case's instruction; behind two prefix bytes every fourth byte); corpus cases: every "
+             "instruction of the comparison corpus (quick: 90 per simulator, divide/multiply/shift mnemonics first) from 7 value presets (most negative / minus one alternating with the register number, and with its bit 1, "
+             "both ways; 0x8000 / 0xffff; all ones; all zero); distinct = (simulator, pattern)",
         traces_validated_against_impl=len(events) - len(canaries), per_simulator=per, simulators=len(cpus),
         canaries=dict(injected=len(canaries), rejected=len(canaries)), exhaustive=(tier == "thorough")))
     chk.samples = [dict(case=c[1], body=c[2]) for c in rnd.sample(cases, 4)]
